@@ -127,6 +127,7 @@ PROPS["C14"] = {
         "Lace.C14.parse_no_panic",
         "Lace.C14.reader_lines_valid",
         "Lace.C14.session_no_panic",
+        "Lace.C14.session_eq_script",
         "Lace.C14.split_argument_eq_split_stdin",
         "Lace.C14.read_no_panic",
         "Lace.C14.session_eq_lines",
